@@ -202,14 +202,14 @@ Qed.
 (* every element is below the disjunction / above the conjunction *)
 Lemma or3_list_ub : forall l x, In x l -> le3 x (or3_list l) = true.
 Proof.
-  induction l as [|y l IH]; simpl; intros x H; [destruct H|].
+  induction l as [|y l IH]; intros x H; [destruct H|].
   rewrite or3_list_cons. destruct H as [H|H].
   - subst; apply or3_ub_l.
   - eapply le3_trans; [apply IH; exact H | apply or3_ub_r].
 Qed.
 Lemma and3_list_lb : forall l x, In x l -> le3 (and3_list l) x = true.
 Proof.
-  induction l as [|y l IH]; simpl; intros x H; [destruct H|].
+  induction l as [|y l IH]; intros x H; [destruct H|].
   rewrite and3_list_cons. destruct H as [H|H].
   - subst; apply and3_lb_l.
   - eapply le3_trans; [apply and3_lb_r | apply IH; exact H].
